@@ -112,9 +112,7 @@ func TestVerifC01ZrpcServer(t *testing.T) {
 						func(ctx context.Context, req any) (any, error) {
 							onReq()
 							ran = true
-							if c.Panics {
-								panic(verifc01.PanicValue)
-							}
+							c.Unwind()
 							return "resp", want
 						})
 					if ran && resp != "resp" {
@@ -125,9 +123,7 @@ func TestVerifC01ZrpcServer(t *testing.T) {
 						func(svr any, stream grpc.ServerStream) error {
 							onReq()
 							ran = true
-							if c.Panics {
-								panic(verifc01.PanicValue)
-							}
+							c.Unwind()
 							return want
 						})
 				default:
